@@ -104,6 +104,8 @@ impl WriteStallController {
 			// Create Notified FIRST to register for wakeups.
 			// Any notify_waiters() call after this point will wake us.
 			let notified = self.stall_cleared.notified();
+			#[cfg(surrealkv_verif)]
+			crate::verif::yieldp::yield_point("stall.registered", 0, 0);
 
 			// Check shutdown
 			if self.shutdown.load(Ordering::Acquire) {
@@ -115,6 +117,8 @@ impl WriteStallController {
 
 			// Re-read counts (now any notify_waiters() after notified creation will wake us)
 			let counts = self.provider.get_stall_counts();
+			#[cfg(surrealkv_verif)]
+			crate::verif::yieldp::yield_point("stall.counted", counts.immutable_memtables as u64, counts.l0_files as u64);
 
 			// Check if NOT stalled - return without awaiting
 			if counts.immutable_memtables < self.thresholds.memtable_limit
@@ -158,6 +162,8 @@ impl WriteStallController {
 			}
 
 			// Wait
+			#[cfg(surrealkv_verif)]
+			crate::verif::yieldp::yield_point("stall.wait", 0, 0);
 			notified.await;
 		}
 	}
@@ -186,12 +192,16 @@ impl WriteStallController {
 	/// Called after flush or compaction completes.
 	pub fn signal_work_done(&self) {
 		self.stall_cleared.notify_waiters();
+		#[cfg(surrealkv_verif)]
+		crate::verif::yieldp::yield_point("stall.signal", 0, 0);
 	}
 
 	/// Signal shutdown - wakes all stalled writers to exit.
 	pub fn signal_shutdown(&self) {
 		self.shutdown.store(true, Ordering::Release);
 		self.stall_cleared.notify_waiters();
+		#[cfg(surrealkv_verif)]
+		crate::verif::yieldp::yield_point("stall.signal", 1, 0);
 	}
 
 	/// Fast check if currently stalled (for metrics).
